@@ -46,7 +46,7 @@ ASSUMPTIONS = [
     "simulation adds is the schedule quantifier (sample index k <-> patch index k under every completion order)",
     "per-patch pair counts themselves are taken from the sequential run of the real kernels (C01 is not claimed)",
 ]
-PROBES = ["imap_completion_out_of_order", "landy_szalay", "davis_peebles", "nan_bins", "redshiftdata_with_auto", "redshiftdata_with_unk_auto", "exactly_zero_leave_one_out_normalisation", "identities_recycled"]
+PROBES = ["imap_completion_out_of_order", "landy_szalay", "davis_peebles", "nan_bins", "redshiftdata_with_auto", "redshiftdata_with_unk_auto", "exactly_zero_leave_one_out_normalisation", "identities_recycled", "wide_dynamic_range_weights", "resampled_after_set_patch_pair"]
 REAL_VS_STUB = dict(
     real="yaw measurements, paircounts/corrfunc/corrdata/redshifts algebra, trees, numpy einsum",
     stub="multiprocessing.Pool (sim.fakemp), _num_processes; builtins.id during the repeat/churn stage (sim.identity: identities of released objects recycled in a recorded order)",
@@ -62,6 +62,7 @@ def gen_cases(tier: str, verif_seed: int, runs: int | None = None) -> list[dict]
         scene = scenes.gen_scene(prng, small=True)
         if prng.chance(1, 2):
             scene["z_unk"] = scene["z_runk"] = True  # unknown-sample autocorrelation available
+        scene["wide"] = True
         variants = []
         for j in range(nvar):
             variants.append(
@@ -153,6 +154,17 @@ def _workload(case: dict, paths: dict, max_workers, out: dict) -> None:
     out["auto.sample"] = [orc.sampled_state(cf.sample()) for cf in auto]
     out["cross.cov"] = [dict(cov=np.array(cf.sample().covariance), err=np.array(cf.sample().error)) for cf in cross]
     out["hist"] = orc.sampled_state(hist)
+    if "wide" in paths:
+        wide = yaw.Catalog(paths["wide"], **kw)
+        out["hist.wide"] = orc.sampled_state(yaw.HistData.from_catalog(wide, config, **kw))
+        if max_workers == 1:
+            from yaw.redshifts import _redshift_histogram as _rh
+
+            rows = []
+            for idx, patch in enumerate(wide.values()):
+                r = _rh(idx, patch, config.binning.binning)
+                rows.append(np.asarray(r[1] if isinstance(r, tuple) else r, dtype="f8"))
+            out["hist.wide.per_patch"] = np.array(rows)
     out["hist.cov"] = dict(cov=np.array(hist.covariance), err=np.array(hist.error))
     nz = [yaw.RedshiftData.from_corrfuncs(c, ref_corr=a) for c, a in zip(cross, auto)]
     out["nz"] = [orc.sampled_state(x) for x in nz]
@@ -219,6 +231,19 @@ def _repeat_and_churn(case: dict, config, cats: dict, rk_: dict, kw: dict, out: 
                 break
         if out.get("repeat_mismatch"):
             break
+    # a result object reflects its *current* content: counts of one patch pair are replaced through
+    # the public setter after a first sampling; the second sampling must be the leave-one-out
+    # statistic of the modified counts
+    mutated = []
+    for name, cf in srcs:
+        twin = pickle.loads(pickle.dumps(cf))
+        twin.sample()
+        pc = twin.dd.counts
+        i_, j_ = 0, pc.num_patches - 1
+        pc.set_patch_pair(i_, j_, np.asarray(pc.counts[:, i_, j_]) + 1.0)
+        mutated.append((name, orc.corrfunc_state(twin), orc.sampled_state(twin.sample())))
+        del twin
+    out["mutated"] = mutated
     out["churn.ref"] = ref_states
     out["churn.first"] = {name: orc.sampled_state(cf.sample()) for name, cf in srcs}
 
@@ -297,6 +322,18 @@ def evaluate(case: dict, ref: dict, got: dict, cache_ref: dict) -> tuple[dict | 
                     f"{kind}[{i}].sample().samples differ from leave-one-out values (row permutation: {perm})",
                     probes,
                 )
+    for name, cfstate, g in got.get("mutated", []):
+        try:
+            data, samples = orc.loo_corrfunc(cfstate)
+        except KeyError:
+            continue
+        probes["resampled_after_set_patch_pair"] = 1
+        if not orc.close_where_ref_finite(g["data"], data) or not orc.close_where_ref_finite(g["samples"], samples):
+            return (
+                sig("sample_after_mutation", "stale_samples"),
+                f"{name}: sample() after set_patch_pair() on its dd counts does not give the leave-one-out values of the modified counts",
+                probes,
+            )
     if got.get("identity.recycled"):
         probes["identities_recycled"] = 1
     # (a') repeated build/sample/release cycles reproduce the first sampling, which is the one checked above
@@ -375,6 +412,27 @@ def evaluate(case: dict, ref: dict, got: dict, cache_ref: dict) -> tuple[dict | 
             f"hist.samples differ from leave-one-out sums (row permutation: {perm}): {np.asarray(g['samples']).tolist()} vs {loo.tolist()}",
             probes,
         )
+    # (c') the same on weights spanning many orders of magnitude: the leave-one-out sample of the
+    # dominant patch is a sum of small numbers, computed here by exact summation of the others
+    if "hist.wide" in got and "hist.wide.per_patch" in ref:
+        import math
+
+        counts = ref["hist.wide.per_patch"]
+        npatch, nb = counts.shape
+        total = np.array([math.fsum(counts[:, b]) for b in range(nb)])
+        loo = np.array([[math.fsum(np.delete(counts[:, b], k)) for b in range(nb)] for k in range(npatch)])
+        g = got["hist.wide"]
+        probes["wide_dynamic_range_weights"] = 1
+        if not orc.allclose_nan(g["data"], total, rtol=1e-11):
+            return sig("HistData.from_catalog", "value_wrong", weights="wide"), f"hist(wide weights).data {g['data']} != {total}", probes
+        if not orc.allclose_nan(g["samples"], loo, rtol=1e-11):
+            bad = np.argwhere(~np.isclose(np.asarray(g["samples"], dtype="f8"), loo, rtol=1e-11, atol=0, equal_nan=True))
+            k_, b_ = bad[0] if len(bad) else (0, 0)
+            return (
+                sig("HistData.from_catalog", "samples_wrong", weights="wide"),
+                f"hist(wide weights).samples[{k_},{b_}] = {np.asarray(g['samples'])[k_, b_]!r}, the sum over the other patches is {loo[k_, b_]!r} (total {total[b_]!r})",
+                probes,
+            )
     # (d) covariance
     for i, st in enumerate(got["cross.sample"]):
         msg = _cov_problems(st["samples"], got["cross.cov"][i]["cov"], got["cross.cov"][i]["err"], f"cross[{i}]")
